@@ -47,7 +47,7 @@ class C14(Check):
     id = "C14"
     prop_file = "theories/Properties/Properties_C14.v"
     theorems = ("C14_am_conservation", "C14_am_exactly_once_intact", "C14_am_no_duplicate", "C14_am_quiescent_all_delivered",
-                "C14_am_fifo_refuted", "C14_window_conserved", "C14_windows_invariant", "C14_dynamic_conserved",
+                "C14_am_fifo_refuted", "C14_window_conserved", "C14_windows_invariant", "C14_window_no_double", "C14_window_eventually", "C14_dynamic_conserved",
                 "C14_dynamic_run", "C14_pending_installed", "C14_next_tag_valid", "C14_next_tag_distinct")
     comp = "ce"
     extract_file = "theories/Extract/Extract_CE.v"
@@ -59,7 +59,7 @@ class C14(Check):
                   "subset reported, any window sizes): every active message handed to a tag's callback is a message that was sent, "
                   "with the bytes sent, never twice, and sent = delivered + matched-not-yet-served + in flight; the tested window of "
                   "a tag always holds distinct posted receives and is full after a refill, nothing is dropped or duplicated by the "
-                  "packing (1 <= tested <= posted); the dynamic region and the two pending FIFOs conserve the set of dynamic requests "
+                  "packing, no pool entry ever sits in two slots and every posted receive enters the window within req_count picks, for any completion order (1 <= tested <= posted); the dynamic region and the two pending FIFOs conserve the set of dynamic requests "
                   "for any ascending report and any callback behaviour, the region has no hole after compaction, and after a progress "
                   "pass a free slot implies nothing installable is waiting; next_tag stays in [0, MAX-k] and floor(MAX/k) consecutive "
                   "allocations are disjoint.  Per-(source, tag) FIFO delivery is refuted on the model (one completion of another "
@@ -170,8 +170,14 @@ class C14(Check):
             out.append(self.gen_ce(r, 3, 1, 1, 2, 1, -1, 0, am(60), 6, 6, 1024, burst=True))                   # minimal windows, pending FIFOs
             out.append(self.gen_ce(r, 4, 3, 2, 3, 1, -1, 0, am(50), 5, 5, 2048, burst=r.chance(1, 2)))
             out.append(self.gen_ce(r, 3, 4, 1, 3, 2, -1, r.range(150, 450), am(80), 6, 6, 512, burst=True))    # thinned Testsome, window of 1
-            out.append(self.gen_ce(r, 2, 5, 5, 4, 2, -1, 0, am(150), 8, 8, 65536))                 # tested = posted, rank 0 sends AMs above the eager limit
-            out.append(self.gen_ce(r, 3, 4, r.range(2, 3), 4, 2, -1, r.range(150, 350), am(70), 4, 4, 512))  # out-of-order reports
+            out.append(self.gen_ce(r, 2, 5, 5, 4, 2, -1, r.range(100, 300), am(150), 8, 8, 65536))   # tested = posted, out-of-order reports, rank 0 sends AMs above the eager limit
+            out.append(self.gen_ce(r, 3, 4, 3, 4, 2, -1, r.range(150, 350), am(70), 4, 4, 512))  # out-of-order reports, 2*tested > posted+1
+            # the boundary of the pool scan, always present: the window holds (almost) the whole pool, so that a refill after an
+            # out-of-order completion has to walk past receives that are still in the window to find the free one
+            Pb = r.range(2, 4)
+            out.append(self.gen_ce(r, 3, Pb, Pb, 3, 1, -1, r.range(200, 400), am(60), 3, 3, 512))
+            Pc = r.range(3, 7)
+            out.append(self.gen_ce(r, r.range(2, 3), Pc, r.range((Pc + 1) // 2 + 1, Pc), 4, 2, -1, r.range(150, 350), am(50), 3, 3, 1024))
             out.append(self.gen_ce(r, 2, 3, 2, 6, 3, r.range(2, 5), 0, am(100), 2, 0, 4096))        # tag roll-over
             k = r.range(2, 4)
             P = r.range(1, 8)
@@ -205,7 +211,7 @@ class C14(Check):
         k = int(case.split()[1])
         prefix = os.path.join(outdir, str(i))
         cmd = MPIEXEC + ["-n", str(k), self.hbin(), casefile, prefix, str(i)]
-        rc, o, e = run(cmd, timeout=300)
+        rc, o, e = run(cmd, timeout=600)
         ranks = []
         for r in range(k):
             try:
@@ -284,6 +290,9 @@ class C14(Check):
             rc, err, ranks = self.one_run(casefile, i, c, outdir)
             if rc == 124 and all(x is None for x in ranks):
                 # the launcher itself ran out of time before any rank could write (overloaded machine): not an observation
+                rc, err, ranks = self.one_run(casefile, i, c, outdir)
+            if any(x and x[-1].startswith("end TIMEOUT") for x in ranks):
+                # a rank gave up waiting: run once more, so that a machine that was too busy is not mistaken for a lost message
                 rc, err, ranks = self.one_run(casefile, i, c, outdir)
             return i, self.merge(c, rc, err, ranks)
         with ThreadPoolExecutor(max_workers=4) as ex:
